@@ -165,3 +165,50 @@ func VerifC04Local(v *verifrt.T) {
 	v.Assert(a.Has("k1") == b.Has("k1"), "C04.same-activity")
 	v.Assert(a.Has("k1") == verifrt.And(wantA != 0, wantA >= wantD), "C04.active-definition")
 }
+
+// VerifC04NoSharing: a payload object that has been merged lives on - Merge turns it into
+// the delta, the gossip library queues it for relay and merges it into its pending payload,
+// an in-process neighbour may receive the same object. None of that may reach back into the
+// replica that merged it first (and the queued delta must not change when that replica moves
+// on): state and payload do not share memory after a merge.
+func VerifC04NoSharing(v *verifrt.T) {
+	durable := false
+	if v.Bound("durable") == 1 {
+		durable = v.Bool("durable")
+	}
+	var us [4]c04upd
+	for i := range us {
+		us[i] = c04draw(v, i, 1)
+	}
+	k := c04keys[0]
+	r := c04new(durable)
+	if v.Bool("known") { // the replica may already know the key
+		r.Merge(c04payload(us[0], 1))
+	} else {
+		us[0] = c04upd{}
+	}
+	p := c04payload(us[1], 1)
+	r.Merge(p) // p is now the delta r relays
+	wantA, wantD := c04max(us[0].add[0], us[1].add[0]), c04max(us[0].del[0], us[1].del[0])
+	dA, dD := p.Get(k).AddTime(), p.Get(k).DelTime()
+	// the sender merges the delta into a pending payload that knows the key ...
+	pending := NewVolatile()
+	pending.Merge(c04payload(us[2], 1))
+	pending.Merge(p)
+	// ... and a neighbour that knows the key receives the same object
+	n := c04new(durable)
+	n.Merge(c04payload(us[3], 1))
+	n.Merge(p)
+	v.Reach("delta-reused")
+	t := r.Get(k)
+	v.Assert(t.AddTime() == wantA && t.DelTime() == wantD, "C04.state-not-reachable-through-the-merged-payload")
+	// the other direction: a queued delta keeps its times while the replica moves on
+	q := c04payload(us[1], 1)
+	r2 := c04new(durable)
+	r2.Merge(q)
+	qA, qD := q.Get(k).AddTime(), q.Get(k).DelTime()
+	r2.Merge(c04payload(us[2], 1))
+	r2.Merge(c04payload(us[3], 1))
+	v.Assert(q.Get(k).AddTime() == qA && q.Get(k).DelTime() == qD, "C04.queued-delta-not-reachable-through-the-state")
+	_, _ = dA, dD
+}
